@@ -65,6 +65,14 @@ CHECKS = {
              "oracle checks no panic, well-formedness, limits, canonical re-encoding and the measured allocation bound.",
         note=NOTE_COMMON + "Partial: well-formedness/canonicity of decoded multi types and collections, and the real allocator, are decided per explored input.",
     ),
+    "C20": dict(
+        technique="Lean 4 theorems parametric in the distance function (index-list shape, mask monotonicity, scan/split invariants) + bit-exact float correspondence + exact rational oracle",
+        text="For every distance function, comparison, threshold and size: the result is strictly increasing and in range, all points are returned below three, "
+             "first and last are always kept (mask monotonicity by induction over the worker's fuel), and every split index is strictly inside its segment "
+             "and carries the maximal distance found. The threshold guarantee and idempotence are evaluated per run in exact rational arithmetic against "
+             "Go's output, with the Lean Float mirror reproducing Go's indexes bit for bit.",
+        note=NOTE_COMMON + "Partial: 'every omitted point within threshold' and idempotence are oracle-checked, not proved.",
+    ),
 }
 
 _PENDING = "check not built yet in this session (work in progress; see DESIGN.md §9 build order)"
